@@ -204,7 +204,10 @@ class Project:
         for rel, text in files.items():
             p = self.root / rel
             p.parent.mkdir(parents=True, exist_ok=True)
-            p.write_text(text)
+            if isinstance(text, bytes):
+                p.write_bytes(text)
+            else:
+                p.write_text(text)
 
     def path(self, rel: str = "") -> str:
         return str(self.root / rel) if rel else str(self.root)
